@@ -628,6 +628,14 @@ where
 
         let (topic_name, consumed) = MqttString::decode(&data_arc[cursor..])?;
         cursor += consumed;
+        // Same rules as the builder: a Topic Name is at least one character long and
+        // MUST NOT contain wildcard characters [MQTT-4.7.3-1, MQTT-3.3.2-2]
+        if topic_name.as_str().is_empty()
+            || topic_name.as_str().contains('#')
+            || topic_name.as_str().contains('+')
+        {
+            return Err(MqttError::MalformedPacket);
+        }
 
         let qos = match qos_value {
             0 => Qos::AtMostOnce,
